@@ -1,6 +1,7 @@
 package props
 
 import (
+	"bytes"
 	"fmt"
 	"strconv"
 	"strings"
@@ -68,6 +69,9 @@ func c04Rcpt(kind string) string {
 	case "module":
 		// a valid L1 address that the L1 bank module lists as blocked for user transfers
 		return authtypes.NewModuleAddress(authtypes.FeeCollectorName).String()
+	case "escrow":
+		// the bridge's own escrow account: paying it is a transfer to itself
+		return sdk.AccAddress(ref.BridgeAddress(c04Bridge)).String()
 	}
 	panic(kind)
 }
@@ -89,6 +93,9 @@ func newC04Sys() *c04Sys {
 	w1 := world.NewL1(world.L1Options{Accounts: map[string]sdk.Coins{
 		"proposer": nil, "challenger": nil, "creator": nil, "submitter": nil, "bob": nil, "alice": coins,
 	}})
+	// the fee collector exists as a module account on this L1 (it does on any chain that has charged a fee);
+	// it is one of the recipients
+	w1.AK.GetModuleAccount(w1.Ctx, authtypes.FeeCollectorName)
 	// the rollup's bridge is one of several on this L1: ids 1, 2 and 4 belong to other rollups
 	for i := 0; i < 4; i++ {
 		if res := w1.Deliver(w1.Ctx, ophosttypes.NewMsgCreateBridge(world.Addr("creator").String(), world.BridgeConfig("proposer", "challenger", c04Period))); !res.OK() {
@@ -321,7 +328,11 @@ func (y *c04Sys) runTree(descs []c04Desc) (c04Result, *engine.Violation) {
 		if !res.OK() {
 			return r, tagged(viol("recorded-withdrawal-is-claimable", "claim of recorded %s (leaf %d of %d) failed: %v", w, i, len(wds), res.Err), "amount", "<2^64", "kind", kindOf(w.From))
 		}
-		if got := y.w1.BK.GetBalance(c1, to, w.Denom).Amount.Sub(before); !got.Equal(math.NewIntFromUint64(w.Amount)) {
+		wantDelta := math.NewIntFromUint64(w.Amount)
+		if bytes.Equal(to, ref.BridgeAddress(c04Bridge)) {
+			wantDelta = math.ZeroInt() // escrow pays escrow
+		}
+		if got := y.w1.BK.GetBalance(c1, to, w.Denom).Amount.Sub(before); !got.Equal(wantDelta) {
 			return r, viol("claim-pays-exactly-the-recorded-amount", "claim of %s paid %s", w, got)
 		}
 		r.claimed++
@@ -368,6 +379,7 @@ func c04Run(rc *engine.RunCtx) *engine.Result {
 	}
 	small = append(small, c04Desc{"hook", "1", "uinit", "lower"})
 	small = append(small, c04Desc{"user", "1", "uinit", "module"})
+	small = append(small, c04Desc{"user", "1", "uinit", "escrow"})
 	small = append(small, c04Desc{"refund-upper-sender", "1", "uinit", ""})
 	small = append(small, c04Desc{"refund-blank-recipient", "1", "uinit", ""})
 	small = append(small, c04Desc{"executor-direct", "1", "uinit", ""})
